@@ -45,6 +45,11 @@ def replay_file(path):
     """./check replay <file>: re-run the concrete input recorded in a replay file on the real code"""
     d = json.load(open(path))
     cx = d.get('counterexample')
+    if cx and cx.get('scenario') == 'enum':
+        print('bounded-enumeration counterexample for %s: harness %s, choice sequence %s' % (d.get('obligation'), cx['harness'], cx['choices']))
+        p = subprocess.run([cx['binary'], '--replay', cx['harness'], ','.join(map(str, cx['choices']))], capture_output=True, text=True)
+        print((p.stdout + p.stderr)[-1500:])
+        return 0
     if not cx or 'scenario' not in cx:
         print('replay file names obligation %s (%s); the verifier gave no concrete input (no-failing-input-found)'
               % (d.get('obligation'), d.get('prose')))
